@@ -177,6 +177,7 @@ impl Recd {
             for m in parse_hs(&p) {
                 if m.total as usize == m.body.len() { self.learn_body(m.typ, &m.body); continue; }
                 if self.frag.0 != m.seq || m.off == 0 { self.frag = (m.seq, vec![]); }
+                if m.off as usize != self.frag.1.len() { continue; } // only the fragment that continues the buffer counts
                 self.frag.1.extend_from_slice(&m.body);
                 if self.frag.1.len() >= m.total as usize { let b = std::mem::take(&mut self.frag.1); self.learn_body(m.typ, &b); }
             }
